@@ -773,7 +773,15 @@ impl Ctx {
     }
     fn prove_gr_d(&mut self, resid: u32, fresh_from: u32, adv: &[u32], what: &str, depth: u32) -> Option<u32> {
         let deep = self.deep_support(resid);
-        let adv_in: Vec<u32> = deep.iter().copied().filter(|a| adv.contains(a)).collect();
+        // adversarial atoms the residual really depends on (occurrences that cancel do not count)
+        let mut adv_in: Vec<u32> = vec![];
+        for a in deep.iter().copied().filter(|a| adv.contains(a)) {
+            let a1 = self.add(a, 1);
+            let shifted = self.subst(resid, a, a1);
+            if self.differs_in_some_world(resid, shifted) {
+                adv_in.push(a);
+            }
+        }
         let cands: Vec<u32> = deep.into_iter().filter(|a| *a >= fresh_from && !adv.contains(a)).rev().collect();
         let top = self.support(resid);
         for v in cands {
